@@ -495,7 +495,7 @@ def harnessFns : String → Option (List (Fn × Shape))
   -- the iterator behind a BGP skips nothing here (its matchers accept every row)
   | "sparql_bgp" => flatFns [.bgpRec, .selectCycle]
   -- FILTER / BIND / ORDER BY: `check_exists` walks the expression before the evaluation
-  | "sparql_filter" | "sparql_ops" => flatFns [.bgpRec, .selectCycle, .checkExists]
+  | "sparql_filter" | "sparql_ops" | "sparql_exists" => flatFns [.bgpRec, .selectCycle, .checkExists]
   | "sparql_orderby" => flatFns [.cmpBindingsWith, .bgpRec, .selectCycle, .checkExists]
   -- one list of `n` items
   | "jsonld_list" => flatFns [.markListNode, .populateList, .populateConvertCycle, .jsonify]
